@@ -387,3 +387,8 @@ mod tests {
         );
     }
 }
+
+// verification hook (add-only, inert unless built by `cargo kani`, which sets --cfg kani)
+#[cfg(kani)]
+#[path = "/verif/kani/line_writer_harness.rs"]
+mod verif_kani;
